@@ -10,11 +10,15 @@ Local Open Scope N_scope.
 
 Definition is_eol (w : word) : bool := match w with [c] => N.eqb c 10 | _ => false end.
 
+(* one line break per line step ("fix:": the line number can advance without
+   an end-of-line token after a word hyphenated across a line break) *)
+Definition breaks (prev l : N) : list rune := repeat 10 (N.to_nat (l - prev)).
+
 Fixpoint write_rest (toks : list (word * N)) (prev : N) : list rune :=
   match toks with
   | [] => []
   | (w, l) :: r =>
-    (if N.eqb l (prev + 1) then [10] else [])
+    breaks prev l
       ++ (if is_eol w then [] else (if N.eqb l prev then [32] else []) ++ w)
       ++ write_rest r l
   end.
@@ -22,8 +26,8 @@ Fixpoint write_rest (toks : list (word * N)) (prev : N) : list rune :=
 Definition normalize_out (toks : list (word * N)) : list rune :=
   match toks with
   | [] => []
-  | [(w, _)] => w
-  | (w, _) :: r => (if is_eol w then [] else w) ++ write_rest r 1   (* a leading EOL token is not written ("fix:") *)
+  | [(w, l)] => breaks 1 l ++ w
+  | (w, l) :: r => breaks 1 l ++ (if is_eol w then [] else w) ++ write_rest r (N.max 1 l)   (* a leading EOL token is not written ("fix:") *)
   end.
 
 Definition normalize (T : tables) (bs : list byte) : list byte :=
